@@ -274,7 +274,7 @@ class Sched:
 
 
 def explore(W, fn, bound, check, max_execs=100000):
-    """Preemption-bounded stateless DFS.  check(sched) -> outcome key (hashable) or raises.  Returns dict(executions,
+    """Deviation-bounded (preemptions + non-default resumptions) stateless DFS.  check(sched) -> outcome key (hashable) or raises.  Returns dict(executions,
     outcomes, complete, schedules)."""
     outcomes = {}
     execs = 0
@@ -287,14 +287,16 @@ def explore(W, fn, bound, check, max_execs=100000):
         key = check(s)
         outcomes.setdefault(key, prefix)
         # branch on every later point
+        # deviation bound: every non-default choice costs 1 - a preemption (switching away from a rank that is still
+        # enabled) as well as resuming another than the lowest-numbered enabled rank when the running rank blocks
+        # (free non-preemptive switches explode combinatorially on meshes whose creation has hundreds of barriers)
         pre = 0
         for i, (order, k, running_enabled) in enumerate(s.points):
             if i >= len(prefix):
                 for alt in range(1, len(order)):
-                    cost = pre + (1 if running_enabled else 0)
-                    if cost <= bound:
+                    if pre + 1 <= bound:
                         stack.append(tuple(p[1] for p in s.points[:i]) + (alt,))
-            if k != 0 and running_enabled:
+            if k != 0:
                 pre += 1
         if execs >= max_execs:
             complete = False
